@@ -5,10 +5,21 @@ import Aqv.Model.ChainWriter
 import Aqv.Lemmas.ChainDb
 namespace Aqv.ChainDb
 
+variable {V : Hash → Hdr → Prop}
+
 /-! ### the invariant -/
 
+/-- facts about the stored blocks themselves (independent of the head): `V` is any predicate the importer guarantees for
+    the headers it hands to the writers (e.g. "this is block `h` of the universe"); a stored block's parent is stored; a
+    stored block has a total-difficulty record -/
+structure Ext (V : Hash → Hdr → Prop) (db : Db) : Prop where
+  valid : ∀ h n hd, getHeader db h n = some hd → V h hd
+  pclosed : ∀ h n hd, getBlock db h (n + 1) = some hd → ∃ hd', getBlock db hd.parent n = some hd'
+  storedTd : ∀ h n hd, getBlock db h n = some hd → (get db (.td h)).isSome = true
+
 /-- what every image between two writes of a (correct) writer satisfies; `g` is the in-memory head block -/
-structure Inv (ar : Bool) (db : Db) (g : Hash) : Prop where
+structure Inv (ar : Bool) (V : Hash → Hdr → Prop) (db : Db) (g : Hash) : Prop where
+  ext : Ext V db
   head : headPtr db = some g
   chain : ∃ n, blockNumber db g = some n ∧ CanonAgrees db g n
   closed : Closed db
@@ -112,7 +123,7 @@ theorem repairable_of_canonAgrees {db : Db} {h : Hash} {n : Nat} (hc : CanonAgre
     simp only [hb, Nat.add_sub_cancel, ih, Bool.and_true, Bool.or_eq_true, bne_iff_ne, ne_eq]
     exact Or.inr (by simp)
 
-theorem imageOK_of_inv {ar : Bool} {db : Db} {g : Hash} (hi : Inv ar db g) : imageOK ar db g = true := by
+theorem imageOK_of_inv {ar : Bool} {db : Db} {g : Hash} (hi : Inv ar V db g) : imageOK ar db g = true := by
   obtain ⟨n, hn, hc⟩ := hi.chain
   unfold imageOK LocalOK
   simp only [hi.head, hn, chainOK_of_canonAgrees hc, repairable_of_canonAgrees hc hi.gstate,
@@ -125,9 +136,19 @@ theorem imageOK_of_inv {ar : Bool} {db : Db} {g : Hash} (hi : Inv ar db g) : ima
 
 /-! ### preservation: a general monotone step -/
 
+theorem ext_of_same {db db' : Db} (he : Ext V db) (hB : ∀ h n, getBlock db' h n = getBlock db h n)
+    (hH : ∀ h n, getHeader db' h n = getHeader db h n)
+    (htd : ∀ h, (get db (.td h)).isSome = true → (get db' (.td h)).isSome = true) : Ext V db' where
+  valid := fun h n hd hh => he.valid h n hd (by rw [← hH]; exact hh)
+  pclosed := fun h n hd hb => by
+    rw [hB] at hb
+    obtain ⟨hd', h'⟩ := he.pclosed h n hd hb
+    exact ⟨hd', by rw [hB]; exact h'⟩
+  storedTd := fun h n hd hb => htd h (he.storedTd h n hd (by rw [← hB]; exact hb))
+
 /-- the workhorse: blocks and trie nodes only appear, head pointer / head number / canonical numbers up to the head are
     untouched, the store stays closed, header ⇒ number still holds -/
-theorem inv_mono {ar : Bool} {db db' : Db} {g : Hash} (hi : Inv ar db g)
+theorem inv_mono {ar : Bool} {db db' : Db} {g : Hash} (hi : Inv ar V db g)
     (hlb : get db' .lastBlock = get db .lastBlock)
     (hhn : get db' (.hashNum g) = get db (.hashNum g))
     (hblk : ∀ h n hd, getBlock db h n = some hd → getBlock db' h n = some hd)
@@ -135,26 +156,28 @@ theorem inv_mono {ar : Bool} {db db' : Db} {g : Hash} (hi : Inv ar db g)
     (hnode : ∀ c, (get db (.node c)).isSome = true → (get db' (.node c)).isSome = true)
     (hclosed : Closed db')
     (harch : ar = true → ∀ h n hd, getBlock db' h n = some hd → hasState db' hd.root = true)
-    (hhnum : ∀ h n hd, getHeader db' h n = some hd → blockNumber db' h = some n) : Inv ar db' g := by
+    (hhnum : ∀ h n hd, getHeader db' h n = some hd → blockNumber db' h = some n)
+    (hext : Ext V db') : Inv ar V db' g := by
   obtain ⟨n, hn, hc⟩ := hi.chain
   obtain ⟨g0, hd0, hc0, hb0, hs0⟩ := hi.gstate
-  refine ⟨by rw [headPtr_congr hlb]; exact hi.head, ⟨n, by rw [blockNumber_congr hhn]; exact hn,
+  refine ⟨hext, by rw [headPtr_congr hlb]; exact hi.head, ⟨n, by rw [blockNumber_congr hhn]; exact hn,
     canonAgrees_mono hblk hc (hcan n hn)⟩, hclosed, ⟨g0, hd0, ?_, hblk _ _ _ hb0, hnode _ hs0⟩, harch, hhnum⟩
   rw [hcan n hn 0 (Nat.zero_le _)]; exact hc0
 
 /-- writes to keys the discipline does not read -/
 def irrelevant : Key → Bool
-  | .td _ | .receipts _ | .lookup _ | .lastHeader | .lastFast | .preimage _ | .other => true
+  | .receipts _ | .lookup _ | .lastHeader | .lastFast | .preimage _ | .other => true
   | _ => false
 
-theorem inv_of_same {ar : Bool} {db db' : Db} {g : Hash} (hi : Inv ar db g)
-    (hs : ∀ k, irrelevant k = false → get db' k = get db k) : Inv ar db' g := by
+theorem inv_of_same {ar : Bool} {db db' : Db} {g : Hash} (hi : Inv ar V db g)
+    (hs : ∀ k, irrelevant k = false → get db' k = get db k) : Inv ar V db' g := by
   have hB : ∀ h n, getBlock db' h n = getBlock db h n := fun h n => getBlock_congr (hs _ rfl) (hs _ rfl) n
   have hH : ∀ h n, getHeader db' h n = getHeader db h n := fun h n => getHeader_congr (hs _ rfl) n
   have hN : ∀ h, blockNumber db' h = blockNumber db h := fun h => blockNumber_congr (hs _ rfl)
   have hS : ∀ r, hasState db' r = hasState db r := fun r => by unfold hasState; rw [hs _ rfl]
   refine inv_mono hi (hs _ rfl) (hs _ rfl) (fun h n hd hb => by rw [hB]; exact hb)
     (fun _ _ k _ => canonHash_congr (hs _ rfl)) (fun c hc => by rw [hs _ rfl]; exact hc) ?_ ?_ ?_
+    (ext_of_same hi.ext hB hH (fun h hh => by rw [hs _ rfl]; exact hh))
   · intro h cs hg c hc
     rw [hs _ rfl] at hg ⊢
     exact hi.closed h cs hg c hc
@@ -163,12 +186,39 @@ theorem inv_of_same {ar : Bool} {db db' : Db} {g : Hash} (hi : Inv ar db g)
   · intro h n hd hh
     rw [hH] at hh; rw [hN]; exact hi.hnum h n hd hh
 
-theorem inv_put_irrelevant {ar : Bool} {db : Db} {g : Hash} (hi : Inv ar db g) {k : Key} (v : Val)
-    (hk : irrelevant k = true) : Inv ar (put db k v) g :=
+/-- the total-difficulty record of a block (hc.WriteTd): only its presence matters -/
+theorem inv_put_td {ar : Bool} {db : Db} {g : Hash} (hi : Inv ar V db g) (x : Hash) (v : Val) :
+    Inv ar V (put db (.td x) v) g := by
+  have hs : ∀ k, (∀ h, k ≠ Key.td h) → get (put db (.td x) v) k = get db k :=
+    fun k hk => get_put_ne db v (by intro e; exact hk x e.symm)
+  have hB : ∀ h n, getBlock (put db (.td x) v) h n = getBlock db h n := fun h n =>
+    getBlock_congr (hs _ (by intro _ e; cases e)) (hs _ (by intro _ e; cases e)) n
+  have hH : ∀ h n, getHeader (put db (.td x) v) h n = getHeader db h n := fun h n =>
+    getHeader_congr (hs _ (by intro _ e; cases e)) n
+  have hN : ∀ h, blockNumber (put db (.td x) v) h = blockNumber db h := fun h =>
+    blockNumber_congr (hs _ (by intro _ e; cases e))
+  have hS : ∀ r, hasState (put db (.td x) v) r = hasState db r := fun r => by
+    unfold hasState; rw [hs _ (by intro _ e; cases e)]
+  refine inv_mono hi (hs _ (by intro _ e; cases e)) (hs _ (by intro _ e; cases e)) (fun h n hd hb => by rw [hB]; exact hb)
+    (fun _ _ k _ => canonHash_congr (hs _ (by intro _ e; cases e))) (fun c hc => by rw [hs _ (by intro _ e; cases e)]; exact hc) ?_ ?_ ?_
+    (ext_of_same hi.ext hB hH (fun h hh => by
+      rw [get_put]; split
+      · rfl
+      · exact hh))
+  · intro h cs hg c hc
+    rw [hs _ (by intro _ e; cases e)] at hg ⊢
+    exact hi.closed h cs hg c hc
+  · intro har h n hd hb
+    rw [hB] at hb; rw [hS]; exact hi.arch har h n hd hb
+  · intro h n hd hh
+    rw [hH] at hh; rw [hN]; exact hi.hnum h n hd hh
+
+theorem inv_put_irrelevant {ar : Bool} {db : Db} {g : Hash} (hi : Inv ar V db g) {k : Key} (v : Val)
+    (hk : irrelevant k = true) : Inv ar V (put db k v) g :=
   inv_of_same hi fun k' hk' => get_put_ne db v (by intro e; subst e; simp [hk] at hk')
 
-theorem inv_del_irrelevant {ar : Bool} {db : Db} {g : Hash} (hi : Inv ar db g) {k : Key}
-    (hk : irrelevant k = true) : Inv ar (del db k) g :=
+theorem inv_del_irrelevant {ar : Bool} {db : Db} {g : Hash} (hi : Inv ar V db g) {k : Key}
+    (hk : irrelevant k = true) : Inv ar V (del db k) g :=
   inv_of_same hi fun k' hk' => by
     rw [get_del]; split
     · rename_i e; subst e; simp [hk] at hk'
@@ -264,8 +314,8 @@ theorem trie_batch_spec : ∀ (ws : Writes) (db : Db), Closed db → trieWritesO
         | _ => simp [trieWritesOK] at hok
     | _ => simp [trieWritesOK] at hok
 
-theorem inv_trie_batch {ar : Bool} {db : Db} {g : Hash} (hi : Inv ar db g) (ws : Writes)
-    (hok : trieWritesOK db ws = true) : Inv ar (apply db (.batch ws)) g := by
+theorem inv_trie_batch {ar : Bool} {db : Db} {g : Hash} (hi : Inv ar V db g) (ws : Writes)
+    (hok : trieWritesOK db ws = true) : Inv ar V (apply db (.batch ws)) g := by
   obtain ⟨h1, h2, h3⟩ := trie_batch_spec ws db hi.closed hok
   have hs : ∀ k, (∀ h, k ≠ Key.node h) → (∀ h, k ≠ Key.preimage h) → get (apply db (.batch ws)) k = get db k := h3
   have hB : ∀ h n, getBlock (apply db (.batch ws)) h n = getBlock db h n := fun h n =>
@@ -277,6 +327,7 @@ theorem inv_trie_batch {ar : Bool} {db : Db} {g : Hash} (hi : Inv ar db g) (ws :
   refine inv_mono hi (hs _ (by intro _ e; cases e) (by intro _ e; cases e)) (hs _ (by intro _ e; cases e) (by intro _ e; cases e))
     (fun h n hd hb => by rw [hB]; exact hb)
     (fun _ _ k _ => canonHash_congr (hs _ (by intro _ e; cases e) (by intro _ e; cases e))) h2 h1 ?_ ?_
+    (ext_of_same hi.ext hB hH (fun h hh => by rw [hs _ (by intro _ e; cases e) (by intro _ e; cases e)]; exact hh))
   · intro har h n hd hb
     rw [hB] at hb
     exact h2 _ (hi.arch har h n hd hb)
@@ -321,10 +372,13 @@ theorem get_block_batch (db : Db) (b : Blk) (extra : Writes) (hx : ∀ w ∈ ext
         · subst h4; simp
         · simp [h1, h2, h3, h4, Ne.symm h1, Ne.symm h2, Ne.symm h3, Ne.symm h4]
 
-theorem inv_block_batch {ar : Bool} {db : Db} {g : Hash} (hi : Inv ar db g) (b : Blk) (extra : Writes)
+theorem inv_block_batch {ar : Bool} {db : Db} {g : Hash} (hi : Inv ar V db g) (b : Blk) (extra : Writes)
     (hx : ∀ w ∈ extra, isLookup w.1 = true) (hf : FreshOrSame db b)
-    (hst : ar = true → hasState db b.root = true) :
-    Inv ar (apply db (.batch (blockData b ++ extra))) g ∧
+    (hst : ar = true → hasState db b.root = true)
+    (hV : V b.hash ⟨b.parent, b.num, b.root⟩)
+    (hpar : ∀ m, b.num = m + 1 → ∃ hd', getBlock db b.parent m = some hd')
+    (htdX : (get db (.td b.hash)).isSome = true) :
+    Inv ar V (apply db (.batch (blockData b ++ extra))) g ∧
       getBlock (apply db (.batch (blockData b ++ extra))) b.hash b.num = some ⟨b.parent, b.num, b.root⟩ ∧
       (∀ h n hd, getBlock db h n = some hd → getBlock (apply db (.batch (blockData b ++ extra))) h n = some hd) ∧
       (∀ h n, blockNumber db h = some n → blockNumber (apply db (.batch (blockData b ++ extra))) h = some n) := by
@@ -390,7 +444,47 @@ theorem inv_block_batch {ar : Bool} {db : Db} {g : Hash} (hi : Inv ar db g) (b :
   obtain ⟨g0, hd0, hc0, hb0, hs0⟩ := hi.gstate
   have hS : ∀ r, hasState (apply db (.batch (blockData b ++ extra))) r = hasState db r := fun r => by
     unfold hasState; rw [gNode]
-  refine ⟨by rw [headPtr_congr gLB]; exact hi.head, ⟨n, hNumSame _ _ hn,
+  have gTd : ∀ h, get (apply db (.batch (blockData b ++ extra))) (.td h) = get db (.td h) := fun h => by rw [G _ rfl]; simp
+  -- a block of the new image is the written block or a block of the old image
+  have hBlkInv : ∀ h m hd, getBlock (apply db (.batch (blockData b ++ extra))) h m = some hd →
+      (h = b.hash ∧ hd = ⟨b.parent, b.num, b.root⟩ ∧ m = b.num) ∨ getBlock db h m = some hd := by
+    intro h m hd hb
+    by_cases e : h = b.hash
+    · subst e
+      obtain ⟨hg, hm⟩ := getHeader_eq (getBlock_header hb)
+      rw [gHdr] at hg; simp only [if_true] at hg
+      injection hg with hg; injection hg with e1 e2 e3
+      refine .inl ⟨rfl, ?_, by omega⟩
+      cases hd; simp_all
+    · have e1 : get (apply db (.batch (blockData b ++ extra))) (.header h) = get db (.header h) := by rw [gHdr, if_neg e]
+      have e2 : get (apply db (.batch (blockData b ++ extra))) (.body h) = get db (.body h) := by rw [gBody, if_neg e]
+      rw [getBlock_congr e1 e2] at hb
+      exact .inr hb
+  have hExt : Ext V (apply db (.batch (blockData b ++ extra))) := by
+    refine ⟨?_, ?_, ?_⟩
+    · intro h m hd hh
+      by_cases e : h = b.hash
+      · subst e
+        obtain ⟨hg, hm⟩ := getHeader_eq hh
+        rw [gHdr] at hg; simp only [if_true] at hg
+        injection hg with hg; injection hg with e1 e2 e3
+        have : hd = ⟨b.parent, b.num, b.root⟩ := by cases hd; simp_all
+        rw [this]; exact hV
+      · have e1 : get (apply db (.batch (blockData b ++ extra))) (.header h) = get db (.header h) := by rw [gHdr, if_neg e]
+        rw [getHeader_congr e1] at hh
+        exact hi.ext.valid h m hd hh
+    · intro h m hd hb
+      rcases hBlkInv h (m + 1) hd hb with ⟨_, rfl, hm⟩ | hb'
+      · obtain ⟨hd', h'⟩ := hpar m hm.symm
+        exact ⟨hd', hBlkMono _ _ _ h'⟩
+      · obtain ⟨hd', h'⟩ := hi.ext.pclosed h m hd hb'
+        exact ⟨hd', hBlkMono _ _ _ h'⟩
+    · intro h m hd hb
+      rw [gTd]
+      rcases hBlkInv h m hd hb with ⟨rfl, _, _⟩ | hb'
+      · exact htdX
+      · exact hi.ext.storedTd h m hd hb'
+  refine ⟨hExt, by rw [headPtr_congr gLB]; exact hi.head, ⟨n, hNumSame _ _ hn,
       canonAgrees_mono hBlkMono hc (fun k _ => canonHash_congr (gCanon k))⟩, ?_, ⟨g0, hd0, by rw [canonHash_congr (gCanon 0)]; exact hc0,
       hBlkMono _ _ _ hb0, by rw [hS]; exact hs0⟩, ?_, ?_⟩
   · intro x cs hg c hcm
@@ -424,9 +518,9 @@ theorem inv_block_batch {ar : Bool} {db : Db} {g : Hash} (hi : Inv ar db g) (b :
 /-! ### canonical numbers above the head, and moving the head -/
 
 /-- a write (put or delete) of a canonical number ABOVE the head's height -/
-theorem inv_canon_above {ar : Bool} {db db' : Db} {g : Hash} {n i : Nat} (hi : Inv ar db g)
+theorem inv_canon_above {ar : Bool} {db db' : Db} {g : Hash} {n i : Nat} (hi : Inv ar V db g)
     (hn : blockNumber db g = some n) (hlt : n < i)
-    (hs : ∀ k, irrelevant k = false → k ≠ .canon i → get db' k = get db k) : Inv ar db' g := by
+    (hs : ∀ k, irrelevant k = false → k ≠ .canon i → get db' k = get db k) : Inv ar V db' g := by
   have hB : ∀ h m, getBlock db' h m = getBlock db h m := fun h m =>
     getBlock_congr (hs _ rfl (by intro e; cases e)) (hs _ rfl (by intro e; cases e)) m
   have hH : ∀ h m, getHeader db' h m = getHeader db h m := fun h m => getHeader_congr (hs _ rfl (by intro e; cases e)) m
@@ -434,6 +528,7 @@ theorem inv_canon_above {ar : Bool} {db db' : Db} {g : Hash} {n i : Nat} (hi : I
   have hS : ∀ r, hasState db' r = hasState db r := fun r => by unfold hasState; rw [hs _ rfl (by intro e; cases e)]
   refine inv_mono hi (hs _ rfl (by intro e; cases e)) (hs _ rfl (by intro e; cases e)) (fun h m hd hb => by rw [hB]; exact hb)
     ?_ (fun c hc => by rw [hs _ rfl (by intro e; cases e)]; exact hc) ?_ ?_ ?_
+    (ext_of_same hi.ext hB hH (fun h hh => by rw [hs _ rfl (by intro e; cases e)]; exact hh))
   · intro n' hn' k hk
     rw [hn] at hn'; injection hn' with hn'; subst hn'
     exact canonHash_congr (hs _ rfl (by intro e; injection e with e; omega))
@@ -447,10 +542,10 @@ theorem inv_canon_above {ar : Bool} {db db' : Db} {g : Hash} {n i : Nat} (hi : I
 
 /-- the head moves to a stored block `B` whose parent lies on the current head's chain: afterwards canonical number
     `m+1` and LastBlock name `B`, every other key the discipline reads is unchanged -/
-theorem inv_new_head {ar : Bool} {db db₁ : Db} {g B : Hash} {m : Nat} {hdB : Hdr} (hi : Inv ar db g)
+theorem inv_new_head {ar : Bool} {db db₁ : Db} {g B : Hash} {m : Nat} {hdB : Hdr} (hi : Inv ar V db g)
     (hB : getBlock db B (m + 1) = some hdB) (hP : CanonAgrees db hdB.parent m)
     (hc : get db₁ (.canon (m + 1)) = some (.ref B)) (hl : get db₁ .lastBlock = some (.ref B))
-    (hs : ∀ k, irrelevant k = false → k ≠ .canon (m + 1) → k ≠ .lastBlock → get db₁ k = get db k) : Inv ar db₁ B := by
+    (hs : ∀ k, irrelevant k = false → k ≠ .canon (m + 1) → k ≠ .lastBlock → get db₁ k = get db k) : Inv ar V db₁ B := by
   have hBk : ∀ h n, getBlock db₁ h n = getBlock db h n := fun h n =>
     getBlock_congr (hs _ rfl (by intro e; cases e) (by intro e; cases e)) (hs _ rfl (by intro e; cases e) (by intro e; cases e)) n
   have hH : ∀ h n, getHeader db₁ h n = getHeader db h n := fun h n =>
@@ -462,7 +557,8 @@ theorem inv_new_head {ar : Bool} {db db₁ : Db} {g B : Hash} {m : Nat} {hdB : H
   have hC : ∀ k, k ≠ m + 1 → canonHash db₁ k = canonHash db k := fun k hk =>
     canonHash_congr (hs _ rfl (by intro e; injection e with e; exact hk e) (by intro e; cases e))
   obtain ⟨g0, hd0, hc0, hb0, hs0⟩ := hi.gstate
-  refine ⟨by unfold headPtr; rw [hl], ⟨m + 1, ?_, ?_⟩, ?_, ⟨g0, hd0, by rw [hC 0 (by omega)]; exact hc0, by rw [hBk]; exact hb0,
+  refine ⟨ext_of_same hi.ext hBk hH (fun h hh => by rw [hs _ rfl (by intro e; cases e) (by intro e; cases e)]; exact hh),
+    by unfold headPtr; rw [hl], ⟨m + 1, ?_, ?_⟩, ?_, ⟨g0, hd0, by rw [hC 0 (by omega)]; exact hc0, by rw [hBk]; exact hb0,
     by rw [hS]; exact hs0⟩, ?_, ?_⟩
   · rw [hN]; exact hi.hnum B (m + 1) hdB (getBlock_header hB)
   · refine CanonAgrees.succ (by rw [hBk]; exact hB) (by unfold canonHash; rw [hc]) ?_
